@@ -416,6 +416,13 @@ def check_c02(model, rep, tier):
         r_schema(model, rep, q, FLOORS[q])
     r_composite(model, rep, "images.Images", ["header", "compose"])
     r_cells(model, rep)
+    # "writing the re-read manifest reproduces the file byte for byte": the position of an image in its cell's list must not
+    # depend on set iteration order; "no image gained or lost ... the same image object filed under several cells": what add()
+    # files is the image it was given
+    from .canonical import r_cell_order
+    from .sources import r_add_insertion
+    r_cell_order(model, rep)
+    r_add_insertion(model, rep)
     r_no_hidden_state(model, rep, ["images.Images"])
     r_io_chain(model, rep)
 
